@@ -13,6 +13,8 @@ int verif_payload_len, verif_payload_pos;
 int verif_sched[VERIF_SCHED_MAX], verif_sched_n, verif_io_calls;
 int verif_seekable, verif_eof_flag, verif_io_active;
 int verif_file_obj;
+unsigned char verif_payload2[VERIF_PAYLOAD_MAX];
+int verif_payload2_len, verif_payload2_pos, verif_file_obj2;
 unsigned char verif_sink[VERIF_PAYLOAD_MAX];
 int verif_sink_len, verif_wsched[VERIF_SCHED_MAX], verif_wsched_n, verif_write_calls;
 
@@ -70,10 +72,24 @@ fgets(char *s, int size, FILE *fp)
 {
     int i = 0;
 
-    (void) fp;
     verif_io_calls++;
     if (size <= 0) {
         return (char *) 0;
+    }
+    if (fp == VERIF_FP2) {
+        while (i < size - 1 && verif_payload2_pos < verif_payload2_len) {
+            unsigned char c = verif_payload2[verif_payload2_pos++];
+
+            s[i++] = (char) c;
+            if (c == '\n') {
+                break;
+            }
+        }
+        if (i == 0) {
+            return (char *) 0;
+        }
+        s[i] = 0;
+        return s;
     }
     while (i < size - 1 && verif_payload_pos < verif_payload_len) {
         unsigned char c = verif_payload[verif_payload_pos++];
